@@ -3,6 +3,7 @@ package main
 import (
 	"bytes"
 	"fmt"
+	"math"
 	"sort"
 	"strings"
 
@@ -157,6 +158,91 @@ func c16scenario(chance, stream int, others ...bool) *explore.Scenario {
 	return sc
 }
 
+// c16stacked: one loss filter in front of another (two lossy links in a row).  Whatever the implementation
+// does internally, a datagram must get through with probability (1-p1)(1-p2), p = clamp(chance,0,100)/100:
+// all values of every Intn(100) draw are enumerated, every execution is weighted 100^-draws, and the
+// set-level oracle compares the forwarded weight with the product (tolerance one percentage point).
+func c16stacked(c1, c2 int) *explore.Scenario {
+	sc := &explore.Scenario{Name: fmt.Sprintf("loss filters stacked: chance=%d in front of chance=%d", c1, c2), Bound: 0, NoFP: true}
+	clamp := func(c int) float64 {
+		if c < 0 {
+			c = 0
+		}
+		if c > 100 {
+			c = 100
+		}
+		return float64(c) / 100
+	}
+	want := (1 - clamp(c1)) * (1 - clamp(c2))
+	sc.Final = func(outcomes map[string]int64) *explore.Violation {
+		got, total := 0.0, 0.0
+		for o, n := range outcomes {
+			var draws, fwd int
+			fmt.Sscanf(o, "ndraws=%d forwarded=%d", &draws, &fwd)
+			w := float64(n) * math.Pow(100, -float64(draws))
+			total += w
+			if fwd == 1 {
+				got += w
+			}
+		}
+		if math.Abs(total-1) > 1e-9 {
+			return &explore.Violation{Sig: "C16 draw-range", Msg: fmt.Sprintf("%s: the enumerated draws do not form a probability space (total weight %.6f): a draw was not from [0,100)", sc.Name, total)}
+		}
+		if math.Abs(got-want) > 0.0101 {
+			return &explore.Violation{Sig: "C16 stacked-fraction", Msg: fmt.Sprintf("%s: a datagram gets through with probability %.4f; two independent losses of %d%% and %d%% (clamped to 0..100) give %.4f", sc.Name, got, c1, c2, want)}
+		}
+		return nil
+	}
+	sc.Make = func() (func(), func(*zzvsched.Exec) (string, *explore.Violation)) {
+		var draws []int64
+		badRange := false
+		rec := vnet.ZZNewRecNIC()
+		sc.Cfg.RandLog = &draws
+		sc.Cfg.RandMenu = func(n int64) []int64 {
+			if n != 100 {
+				badRange = true
+				return []int64{0, n - 1}
+			}
+			return c16menu(0, 1)
+		}
+		p := []byte("stacked")
+		var str string
+		body := func() {
+			inner, err := vnet.NewLossFilter(rec, c2)
+			if err != nil {
+				panic(err)
+			}
+			outer, err := vnet.NewLossFilter(inner, c1)
+			if err != nil {
+				panic(err)
+			}
+			c := vnet.ZZUDPChunk("10.0.0.1:1000", "10.0.0.2:2000", append([]byte(nil), p...))
+			str = c.String()
+			vnet.ZZPush(outer, c)
+		}
+		check := func(ex *zzvsched.Exec) (string, *explore.Violation) {
+			out := fmt.Sprintf("ndraws=%d forwarded=%d draws=%v", len(draws), len(rec.Got), draws)
+			if len(ex.Panics) > 0 {
+				return out, &explore.Violation{Msg: sc.Name + ": panic: " + ex.Panics[0].Value, Sig: "C16 panic"}
+			}
+			if badRange {
+				return out, &explore.Violation{Msg: sc.Name + ": a draw from a range other than [0,100)", Sig: "C16 draw-range"}
+			}
+			if len(rec.Got) > 1 {
+				return out, &explore.Violation{Msg: sc.Name + ": the datagram was forwarded more than once", Sig: "C16 survivor-altered"}
+			}
+			for _, g := range rec.Got {
+				if !bytes.Equal(g.Payload, p) || g.Src != "10.0.0.1:1000" || g.Dst != "10.0.0.2:2000" || g.Str != str {
+					return out, &explore.Violation{Msg: fmt.Sprintf("%s: survivor altered: %q from %s to %s", sc.Name, g.Payload, g.Src, g.Dst), Sig: "C16 survivor-altered"}
+				}
+			}
+			return out, nil
+		}
+		return body, check
+	}
+	return sc
+}
+
 func init() {
 	register(&Check{ID: "C16", ShardByScenario: true,
 		Scenarios: func(tier string) []*explore.Scenario {
@@ -174,8 +260,11 @@ func init() {
 					out = append(out, c16scenario(c, 2, true), c16scenario(c, 3, true))
 				}
 			}
+			for _, pr := range [][2]int{{50, 50}, {0, 100}, {100, 0}, {30, 70}, {99, 1}, {100, 100}, {200, 200}, {150, 150}, {300, 120}, {-5, 50}, {0, 0}} {
+				out = append(out, c16stacked(pr[0], pr[1]))
+			}
 			return out
 		},
-		Rule:        "for every chance in {-5..105 and out-of-range values: -1000, 1000, 2^31, 2^32, 2^32+50, 2^40, 306, 65586, -2^32+50, MaxInt, MinInt}: one datagram x all 100 values of the Intn(100) draw, and streams of 2 and 3 datagrams x the boundary draws {0,chance-1,chance,99}; oracle: exactly one draw from [0,100) per datagram, forwarded iff draw >= chance (hence exactly clamp(chance,0,100) of the 100 equally likely draws drop), survivors byte-identical, in order, once; per scenario the SET of explored draw sequences must be the full product of the menus (draws of successive datagrams independent), also when other loss filters are constructed between the datagrams (the global generator is modelled as a deterministic function of seed and position)",
+		Rule:        "for every chance in {-5..105 and out-of-range values: -1000, 1000, 2^31, 2^32, 2^32+50, 2^40, 306, 65586, -2^32+50, MaxInt, MinInt}: one datagram x all 100 values of the Intn(100) draw, and streams of 2 and 3 datagrams x the boundary draws {0,chance-1,chance,99}; oracle: exactly one draw from [0,100) per datagram, forwarded iff draw >= chance (hence exactly clamp(chance,0,100) of the 100 equally likely draws drop), survivors byte-identical, in order, once; per scenario the SET of explored draw sequences must be the full product of the menus (draws of successive datagrams independent), also when other loss filters are constructed between the datagrams (the global generator is modelled as a deterministic function of seed and position); two filters stacked (11 chance pairs incl. out-of-range ones): all 100 values of every draw, executions weighted 100^-draws, the forwarded weight must equal (1-p1)(1-p2) within one percentage point",
 		Assumptions: []string{"math/rand.Intn is uniform; the statistical clause of the property is replaced by exact enumeration of the draw space"}})
 }
